@@ -312,6 +312,86 @@ def rule_move(S):
     S.require('R-MOVE', 'entry moves between borders', n, 1)
 
 
+def rule_sib(S):
+    """R-SIB: a border that was marked deleted leaves the leaf chain for good or takes no link with it."""
+    from yk.facts import call_args, call_recv, is_call, root_var, CALL_KINDS
+    from yk.flow import Explorer
+    facts = S.facts()
+    S.rule('R-SIB', 'a border marked deleted (set_version_deleted(true)) is unlinked from its neighbours by the same '
+                    'function; on every path from the mark to an exit the node is either retired (handed to the garbage '
+                    'collector: nothing reaches it any more) or - when it stays in the tree as the empty root that the '
+                    'next put revives - its own next and prev pointers were reset to nullptr: the node may have become '
+                    'root while it was being emptied (its last sibling removed after it unlinked itself), and a revived '
+                    'root that still points to the retired sibling hands every backward cursor a deleted node for ever')
+    n = 0
+    fs = facts.functions if isinstance(facts.functions, list) else list(facts.functions.values())
+    for f in fs:
+        if f.is_lambda or not (f.qname or '').startswith(Y + 'border_node::'):
+            continue
+        marks = [x for x in f.all_nodes() if x['k'] in CALL_KINDS and x.get('cq') == Y + 'base_node::set_version_deleted'
+                 and root_var(f, call_recv(f, x)) == 'this' and
+                 any(y['k'] == 'CXXBoolLiteralExpr' and str(y.get('val')) in ('1', 'True', 'true')
+                     for a in call_args(f, x) for y in f.walk(a))]
+        if not marks:
+            continue
+        sites = {}
+
+        def is_null_arg(nd):
+            a = call_args(f, nd)
+            return bool(a) and any(y['k'] in ('CXXNullPtrLiteralExpr', 'GNUNullExpr') for y in f.walk(a[0]))
+
+        def check(ctx, st, loc):
+            if 'del' in st and 'ret' not in st:
+                e = sites.setdefault(loc, {'ok': True, 'path': None, 'miss': ''})
+                miss = [w for w, k in (('next', 'nn'), ('prev', 'pn')) if k not in st]
+                if miss:
+                    e['ok'] = False
+                    e['miss'] = ' and '.join(miss)
+                    e['path'] = e['path'] or ctx.witness()
+            elif 'del' in st:
+                sites.setdefault(loc, {'ok': True, 'path': None, 'miss': ''})
+
+        def step(ctx, nd, st):
+            if nd['k'] == 'ReturnStmt':
+                check(ctx, st, short_loc(nd))
+                return None
+            if nd['k'] not in CALL_KINDS:
+                return st
+            cq = nd.get('cq')
+            own = root_var(f, call_recv(f, nd)) == 'this' if call_recv(f, nd) is not None else False
+            if nd in marks:
+                return frozenset({'del'})
+            if cq == Y + 'base_node::set_version_deleted' and own:
+                return frozenset()      # un-deleted again
+            if 'del' not in st:
+                return st
+            if cq == Y + 'border_node::set_next' and own:
+                return (st | {'nn'}) if is_null_arg(nd) else (st - {'nn'})
+            if cq == Y + 'border_node::set_prev' and own:
+                return (st | {'pn'}) if is_null_arg(nd) else (st - {'pn'})
+            if nd.get('cn') == 'push_node_container' and \
+                    any(y['k'] == 'CXXThisExpr' for a in call_args(f, nd) for y in f.walk(a)):
+                return st | {'ret'}
+            return st
+
+        ex = Explorer(f, step)
+        ex.run(frozenset())
+        for st in ex.exit_states:
+            class _C:
+                @staticmethod
+                def witness():
+                    return None
+            check(_C, st, 'end of function')
+        for loc, e in sorted(sites.items()):
+            n += 1
+            S.ob('R-SIB', fname(f), 'exit at %s after the node was marked deleted' % loc, e['ok'],
+                 'the node is retired, or stays with both sibling links reset' if e['ok'] else
+                 'the deleted border stays in the tree (it is not retired on this path) and keeps its %s pointer: if it '
+                 'became root meanwhile, the put that revives it publishes a link to a retired node' % e['miss'],
+                 loc=loc if ':' in loc else f.loc, path=e['path'])
+    S.require('R-SIB', 'exits of border-deleting functions', n, 2)
+
+
 def run(S):
     S.undecided = ['sortedness and uniqueness inside nodes', 'separators bounding their subtrees',
                    'get == scan == reverse iscan at quiescence (all value-dependent)']
@@ -325,6 +405,7 @@ def run(S):
     rule_rawv(S, la)
     rule_link(S, la)
     rule_move(S)
+    rule_sib(S)
     # sortedness inside nodes and separators bounding their subtrees need every routing / rank / split-side decision
     # to implement the one key order (shared with C18)
     from checks.C18 import rule_cmp
